@@ -38,3 +38,35 @@ package glyf
 //@   loop 1
 //@     invariant len(locaData) == 4*len(offs) && fresh(locaData) && off(locaData) == 0
 //@     invariant forall j int :: 0 <= j && j < iter ==> be32(locaData, 4*j) == offs[j]
+
+//@ spec compLen(cs []GlyphComponent, k int) int = ite(k <= 0, 0, compLen(cs, k-1) + 4 + len(cs[k-1].Data))
+//@ spec padLen(n int) int = ite(n%2 == 0, n, n + 1)
+//@ spec instrLen(c CompositeGlyph) int = ite(c.Instructions == nil, 0, 2 + len(c.Instructions))
+//@ spec rawLen(g *Glyph) int = 10 + ite(is(g.Data, SimpleGlyph), len(g.Data.(SimpleGlyph).Encoded), compLen(g.Data.(CompositeGlyph).Components, len(g.Data.(CompositeGlyph).Components)) + instrLen(g.Data.(CompositeGlyph)))
+//@ spec glyphLen(g *Glyph) int = ite(g == nil, 0, padLen(rawLen(g)))
+//@ pred glyphOK(g *Glyph) = g != nil ==> (is(g.Data, SimpleGlyph) || is(g.Data, CompositeGlyph)) && (is(g.Data, CompositeGlyph) ==> forall k int :: 0 <= k && k <= len(g.Data.(CompositeGlyph).Components) ==> 0 <= compLen(g.Data.(CompositeGlyph).Components, k) && compLen(g.Data.(CompositeGlyph).Components, k) <= 1099511627776)
+
+//@ func (g *Glyph) encodeLen() (n int)   props: C11 C08 C01
+//@   requires glyphOK(g)
+//@   ensures n == glyphLen(g)
+//@   modifies nothing
+//@   loop 0
+//@     invariant total == 10 + compLen(d.Components, iter)
+//@   loop 1
+//@     invariant pre(total) <= total && total <= padLen(pre(total))
+//@     decreases padLen(pre(total)) - total
+
+//@ func (g *Glyph) append(buf []byte) (res []byte)   props: C11 C08 C01
+//@   requires glyphOK(g) && len(buf) <= 1099511627776 && len(buf)%2 == 0
+//@   ensures len(res) == len(buf) + glyphLen(g)
+//@   ensures forall i int :: 0 <= i && i < len(buf) ==> res[i] == old(buf[i])
+//@   modifies buf[*]
+//@   loop 0
+//@     invariant len(buf) == len(old(buf)) + 10 + compLen(d.Components, iter) && (ref(buf) == ref(old(buf)) || fresh(buf))
+//@     invariant forall i int :: 0 <= i && i < len(old(buf)) ==> buf[i] == old(buf[i])
+//@   loop 1
+//@     invariant pre(len(buf)) <= len(buf) && len(buf) <= padLen(pre(len(buf))) && (ref(buf) == ref(old(buf)) || fresh(buf))
+//@     invariant forall i int :: 0 <= i && i < len(old(buf)) ==> buf[i] == old(buf[i])
+//@     decreases padLen(pre(len(buf))) - len(buf)
+//@     exit_assert len(buf) == padLen(pre(len(buf)))
+//@     exit_assert pre(len(buf)) == len(old(buf)) + rawLen(g)
